@@ -90,11 +90,6 @@ register(Contract(
 
 # value mode does not model the inside of regions: the effect of _sync_exiting on the sub-graph of a
 # region predecessor is outside the proved part (hierarchy clause: bounded stand-in, C04/C01 pass)
-register(Contract(
-    qual=SC + ':SCFG._sync_exiting', params={'block': 'block'}, modifies=[], trusted=True, runtime=False,
-    ensures={}, properties=[],
-    note='assumed frame: changes nothing at the level of the caller (it only rewrites exiting blocks inside region sub-graphs)',
-))
 
 IB_PARAMS = {'self': 'SCFG', 'new_name': 'name', 'predecessors': 'list[name]', 'successors': 'list[name]'}
 OB, NB = 'old.self.graph[p]', 'self.graph[p]'
